@@ -76,6 +76,7 @@ class Opts:
         self.force_strat = False
         self.shared_names_bias = 0.0  # probability that a new flow re-uses the NAME of an earlier flow of any kind (names need not be unique)
         self.rebalance_repeat_bias = 0.0  # probability of the sequence A, B, A' of population-split adjustments (A' repeats A's stratification and filter with other proportions; B overlaps A)
+        self.inexact_split_bias = 0.0  # probability that a literal split sums to one only within the API's tolerance (0.01), or that a split of two independent parameters is used (not checked by the API)
         self.shuffle_split_bias = 0.0  # probability that the population split is declared in another order than the strata
         self.chain_adjust_bias = 0.0  # probability that a later stratification re-adjusts a flow an earlier stratification already adjusted (Multiply / Overwrite chains across stratifications)
         self.mixing_pair_bias = 0.0   # probability of forcing two full mixing-carrying stratifications of different flavours (const / param / timevar), in random order
@@ -442,6 +443,16 @@ class Gen:
                 props = r.choice(SPLITS[n])
                 op["split"] = [[s, C(v)] for s, v in zip(strata_final, props)]
                 self.count("split:literal")
+        if o.inexact_split_bias > 0 and "split" in op and len(op["split"]) >= 2 and r.random() < o.inexact_split_bias:
+            if o.allow_params and r.random() < 0.4:
+                pa, pb = self.new_param(SPLIT_PARAM_POOL), self.new_param(SPLIT_PARAM_POOL)
+                op["split"][0][1] = P(pa); op["split"][1][1] = P(pb)          # two independent parameters: nothing makes them sum to one
+                self.count("split:two_independent_params")
+            elif all("c" in kv[1] for kv in op["split"]):
+                last = Fr(op["split"][-1][1]["c"]) + r.choice([Fr(-1, 256), Fr(1, 256), Fr(-1, 128)])
+                if last >= 0:
+                    op["split"][-1][1] = C(last)                              # the literal split sums to one only within the tolerance
+                    self.count("split:sum_within_tolerance")
         if o.shuffle_split_bias > 0 and "split" in op and len(op["split"]) > 1 and r.random() < o.shuffle_split_bias:
             op["split"] = list(reversed(op["split"])) if len(op["split"]) == 2 or r.random() < 0.5 else op["split"][1:] + op["split"][:1]
             self.count("split:declared_in_other_order")
